@@ -295,7 +295,7 @@ func zzUnchanging(pool [][]byte, present []bool, ops []zzOp) bool {
 //
 //zz:opt loop=300 require=end,unchanged-subtree-then-touched sched=0 gor=3000 hashdepth=64
 //zz:quick P=3 T=2 K=1 TAG=1
-//zz:thorough P=4 T=3 K=2 TAG=1 budget=3600s
+//zz:thorough P=4 T=3 K=1 TAG=1 budget=3600s
 func zzH_C10_build_root(t *zzT) { zzBuildRoot(t) }
 
 // C10.d with fully symbolic values (TAG=0): a fresh value may coincide with any value written before,
@@ -550,7 +550,7 @@ func zzH_C10_reopen(t *zzT) {
 //
 //zz:opt loop=300 require=end,present,absent,stale-root,unchanged-subtree-then-proved sched=0 gor=3000 hashdepth=64
 //zz:quick P=3 K=1 Q=2 ORDERED=0 TAG=1
-//zz:thorough P=5 K=1 Q=2 ORDERED=1 TAG=1 budget=3600s
+//zz:thorough P=4 K=1 Q=2 ORDERED=1 TAG=1 budget=3600s
 func zzH_C10_prove_verify(t *zzT) {
 	zzPinEmptyHash(t)
 	pool := zzPoolOf(t)
